@@ -78,6 +78,37 @@ __CPROVER_ensures(self->tst_redbod_ == __CPROVER_old(self->tst_redbod_) && self-
 GV_CANARY("LocalNetwork_update_adjustment entry");
 //@ end
 
+/* Setters of the reference standard deviation (C04 "answers do not depend on the history of queries", C09 "each standard
+   deviation is the ACTUAL reference deviation times the square root of the cofactor"): sigma_L is formed in the tail of
+   vyrovnani_ with the factor m_0()/m_0_apr_ of that moment, the weights p = (m_0_apr_/stdev)^2 enter the project equations.
+   Hence changing the TYPE must invalidate the adjustment stage, changing the a priori VALUE the project equations (and what
+   follows); upstream stages stay valid.  On the tree as found none of them invalidated anything: solve(); set_m_0_aposteriori();
+   stdev_obs(1) stayed 4.6177 where a fresh object gives 0.5091 (units/vyrovnani_tail/native_demo_stale_sigma_L.cpp). */
+//@ contract LocalNetwork_set_m_0_apriori
+__CPROVER_requires(__CPROVER_rw_ok(self, sizeof(*self)))
+__CPROVER_assigns(self->typ_m_0_, self->tst_redbod_, self->tst_redmer_, self->tst_rov_opr_, self->tst_vyrovnani_)
+__CPROVER_ensures(self->typ_m_0_ == apriorni_ && !self->tst_vyrovnani_)
+__CPROVER_ensures(self->tst_redbod_ == __CPROVER_old(self->tst_redbod_) && self->tst_redmer_ == __CPROVER_old(self->tst_redmer_) &&
+                  self->tst_rov_opr_ == __CPROVER_old(self->tst_rov_opr_))
+//@ entry LocalNetwork_set_m_0_apriori
+GV_CANARY("LocalNetwork_set_m_0_apriori entry");
+//@ contract LocalNetwork_set_m_0_aposteriori
+__CPROVER_requires(__CPROVER_rw_ok(self, sizeof(*self)))
+__CPROVER_assigns(self->typ_m_0_, self->tst_redbod_, self->tst_redmer_, self->tst_rov_opr_, self->tst_vyrovnani_)
+__CPROVER_ensures(self->typ_m_0_ == empiricka_ && !self->tst_vyrovnani_)
+__CPROVER_ensures(self->tst_redbod_ == __CPROVER_old(self->tst_redbod_) && self->tst_redmer_ == __CPROVER_old(self->tst_redmer_) &&
+                  self->tst_rov_opr_ == __CPROVER_old(self->tst_rov_opr_))
+//@ entry LocalNetwork_set_m_0_aposteriori
+GV_CANARY("LocalNetwork_set_m_0_aposteriori entry");
+//@ contract LocalNetwork_apriori_m_0_set
+__CPROVER_requires(__CPROVER_rw_ok(self, sizeof(*self)))
+__CPROVER_assigns(self->m_0_apr_, self->tst_redbod_, self->tst_redmer_, self->tst_rov_opr_, self->tst_vyrovnani_)
+__CPROVER_ensures((self->m_0_apr_ == m || m != m) && !self->tst_rov_opr_ && !self->tst_vyrovnani_)
+__CPROVER_ensures(self->tst_redbod_ == __CPROVER_old(self->tst_redbod_) && self->tst_redmer_ == __CPROVER_old(self->tst_redmer_))
+//@ entry LocalNetwork_apriori_m_0_set
+GV_CANARY("LocalNetwork_apriori_m_0_set entry");
+//@ end
+
 /* ------------------------------------------------------------------------------------------------ */
 /* Lazy accessors.  Common contract shape (ACC): from any state satisfying the representation invariant,
    the invariant holds again on return; on normal return the stage whose result is reported is valid
@@ -267,6 +298,9 @@ H_RAW(h_update_observations, LocalNetwork_update_observations(&N))
 H_RAW(h_update_residuals, LocalNetwork_update_residuals(&N))
 H_RAW(h_update_adjustment, LocalNetwork_update_adjustment(&N))
 H_RAW(h_is_adjusted, LocalNetwork_is_adjusted(&N))
+H_RAW(h_set_m_0_apriori, LocalNetwork_set_m_0_apriori(&N))
+H_RAW(h_set_m_0_aposteriori, LocalNetwork_set_m_0_aposteriori(&N))
+void h_apriori_m_0_set(void) { struct LocalNetwork N; double m; LocalNetwork_apriori_m_0_set(&N, m); GV_CANARY("h_apriori_m_0_set end"); }
 
 H_NET(h_points_count, LocalNetwork_points_count(&N))
 H_NET(h_huge_abs_terms, LocalNetwork_huge_abs_terms(&N))
